@@ -242,6 +242,31 @@ def run_re(tier, repo=None, procs=16):
     return outcomes
 
 
+_readvmemo = {}
+
+
+def run_re_adversarial(tier, repo=None, procs=16):
+    """C17 on calls with re-entrant hooks: the MC_OpsRe vectors on the adversarial class families, in lock-step with the plain class."""
+    repo = repo or core.repo_path()
+    if (tier, repo) in _readvmemo:
+        return _readvmemo[(tier, repo)]
+    adv = ["adv:%s:%s" % (b, base) for b in ("alwayseq", "nevereq", "falsy", "zerolen", "unhashable", "container", "ordering", "tripwire")
+           for base in ("mixin", "light")]
+    pairs = [(a.rsplit(":", 1)[1], a) for a in adv]
+    c = RE[tier][0]
+    stats = run_re_model(c, False)
+    lines = T.read_lines(stats["lines_path"])
+    k = 4 if tier == "quick" else 1
+    sub = lines[(core.seed() + 1) % k::k]
+    with core.pool(ops_replay.worker_init, (repo, False), procs) as p:
+        size = max(50, min(1000, len(sub) // (procs * 4) + 1))
+        parts = core.pmap(p, ops_replay.replay_chunk_re, [(ch, ["mixin", "light"] + adv, pairs) for ch in core.chunks(sub, size)])
+    tot = {"n": sum(r["n"] for r in parts), "same": sum(r["same"] for r in parts), "lockstep_diff": [d for r in parts for d in r["lockstep_diff"]][:40],
+           "config": dict(c, name=c["name"] + "-adv"), "tlc": stats, "asrt": False, "vectors": len(sub), "families": ["mixin", "light"] + adv}
+    _readvmemo[(tier, repo)] = tot
+    return tot
+
+
 MAX_JUDGED = 3000
 
 
